@@ -88,7 +88,7 @@ def afterExtend (k : Kw) (buf : Bytes) : Step :=
   let k1 := if isTerminator buf then k.terminate else k
   if isTerminator buf ∧ k1.finished then .done k1 false
   else if isTerminatedRecordString buf then
-    match rawRecord buf.dropLast 47 with
+    match rawRecord buf.dropLast with
     | none => .err
     | some toks =>
       let k2 := k1.addRecord toks
